@@ -113,7 +113,14 @@ func projectField(f *descriptorpb.FieldDescriptorProto) any {
 		out["default_value"] = f.GetDefaultValue()
 	}
 	if f.Options != nil {
-		unexpectedOptions(out, f.Options)
+		o := proto.Clone(f.Options).(*descriptorpb.FieldOptions)
+		if o.Deprecated != nil {
+			out["deprecated"] = o.GetDeprecated()
+			o.Deprecated = nil
+		}
+		if proto.Size(o) > 0 {
+			unexpectedOptions(out, o)
+		}
 	}
 	unknown(out, f)
 	return out
@@ -137,7 +144,14 @@ func projectEnum(e *descriptorpb.EnumDescriptorProto) any {
 		out["unexpected:reserved"] = fmt.Sprint(e.ReservedRange, e.ReservedName)
 	}
 	if e.Options != nil {
-		unexpectedOptions(out, e.Options)
+		o := proto.Clone(e.Options).(*descriptorpb.EnumOptions)
+		if o.AllowAlias != nil {
+			out["allow_alias"] = o.GetAllowAlias()
+			o.AllowAlias = nil
+		}
+		if proto.Size(o) > 0 {
+			unexpectedOptions(out, o)
+		}
 	}
 	if e.Visibility != nil {
 		out["unexpected:visibility"] = e.GetVisibility().String()
